@@ -42,6 +42,11 @@ func goErrorFor(name string) error {
 		return fmt.Errorf("outer: %w", fmt.Errorf("inner: %w", context.Canceled))
 	case name == "opaque":
 		return errors.New("connection reset by peer")
+	case name == "cause":
+		// what context.Cause reports for a context ended with a cause of the application's own
+		return errors.New("budget for this tenant exhausted")
+	case name == "url-cause":
+		return &url.Error{Op: "Post", URL: "http://h/s/m", Err: errors.New("budget for this tenant exhausted")}
 	case name == "closedpipe":
 		return io.ErrClosedPipe
 	case name == "eof":
@@ -69,10 +74,16 @@ type noReadFailingDo struct{ err error }
 
 func (f noReadFailingDo) Do(req *http.Request) (*http.Response, error) { return nil, f.err }
 
-type failingDo struct{ err error }
+type failingDo struct {
+	err    error
+	before func() // runs right before the failure is reported
+}
 
 func (f failingDo) Do(req *http.Request) (*http.Response, error) {
 	go func() { _, _ = io.Copy(io.Discard, req.Body) }()
+	if f.before != nil {
+		f.before()
+	}
 	return nil, f.err
 }
 
@@ -83,29 +94,50 @@ func cflowOp(c *Ctx, op string) {
 	ans := safely(func() string {
 		var hc connect.HTTPClient
 		e := goErrorFor(a["err"])
+		// done=: the call's context ends (that way) just before the transport reports e - as
+		// net/http does with the context's cause, which need not wrap either sentinel
+		ctx, cancel := context.WithCancel(context.Background())
+		defer cancel()
+		var before func()
+		switch a["done"] {
+		case "canceled":
+			before = cancel
+		case "deadline":
+			ctx, cancel = context.WithTimeout(context.Background(), 30*time.Millisecond)
+			defer cancel()
+			before = func() { <-ctx.Done() }
+		}
 		switch {
 		case a["point"] == "do":
-			hc = failingDo{e}
+			hc = failingDo{e, before}
 		default:
 			parts := strings.Split(a["point"], ":")
 			n := atoi(parts[1])
 			body := frame(0, []byte{1})
-			if parts[0] == "prefix" {
+			switch parts[0] {
+			case "prefix":
 				body = append(body, envPrefix(0, 10)[:n]...)
-			} else {
+			case "discard":
+				// a message over the client's read limit (8), n bytes of which arrive (F19)
+				body = append(body, envPrefix(0, 100)...)
+				body = append(body, bytes.Repeat([]byte{7}, n)...)
+			default:
 				body = append(body, envPrefix(0, 10)...)
 				body = append(body, bytes.Repeat([]byte{7}, n)...)
 			}
-			hc = &bodyClient{status: 200, header: http.Header{"Content-Type": {ctFor(proto, "server", "raw")}}, body: &failingBody{data: body, err: e}}
+			hc = &bodyClient{status: 200, header: http.Header{"Content-Type": {ctFor(proto, "server", "raw")}}, body: &failingBody{data: body, err: e, before: before}}
 		}
 		opts := []connect.ClientOption{connect.WithCodec(rawCodec{"raw"})}
+		if strings.HasPrefix(a["point"], "discard") {
+			opts = append(opts, connect.WithReadMaxBytes(8))
+		}
 		if proto == "grpc" {
 			opts = append(opts, connect.WithGRPC())
 		} else if proto == "grpcweb" {
 			opts = append(opts, connect.WithGRPCWeb())
 		}
 		cl := connect.NewClient[[]byte, []byte](hc, "http://h/s/m", opts...)
-		conn := cl.CallBidiStream(context.Background())
+		conn := cl.CallBidiStream(ctx)
 		_ = conn.Send(&[]byte{})
 		_ = conn.CloseRequest()
 		var codes []connect.Code
@@ -136,8 +168,11 @@ func cflowOp(c *Ctx, op string) {
 	case "deadline", "url-deadline":
 		want = 4
 	}
-	if want != 0 && ans != fmt.Sprintf("first=%d second=%d", want, want) {
+	if want != 0 && a["done"] == "" && ans != fmt.Sprintf("first=%d second=%d", want, want) {
 		c.Fail("cancel-code-flow", op, ans, fmt.Sprintf("a context error met at %s must surface as code %d on this and on every later operation", a["point"], want))
+	}
+	if wantDone := map[string]int{"canceled": 1, "deadline": 4}[a["done"]]; wantDone != 0 && ans != fmt.Sprintf("first=%d second=%d", wantDone, wantDone) {
+		c.Fail("cancel-code-flow", op, ans, fmt.Sprintf("the call's context had ended (%s) when the transport failed at %s: this and every later operation must report code %d, whatever the transport's error looks like", a["done"], a["point"], wantDone))
 	}
 	if strings.Contains(ans, "=0") || strings.HasPrefix(ans, "uncoded") || strings.HasPrefix(ans, "PANIC") {
 		c.Fail("cancel-bad-error", op, ans, "operation failed with the zero code, an uncoded error or a panic")
@@ -266,15 +301,23 @@ func cwatchOp(c *Ctx, op string) {
 		parts := strings.Split(a["point"], ":")
 		n := atoi(parts[1])
 		body := frame(0, []byte{1})
-		if parts[0] == "prefix" {
+		switch parts[0] {
+		case "prefix":
 			body = append(body, envPrefix(0, 10)[:n]...)
-		} else {
+		case "discard":
+			body = append(body, envPrefix(0, 100)...)
+			body = append(body, bytes.Repeat([]byte{7}, n)...)
+		default:
 			body = append(body, envPrefix(0, 10)...)
 			body = append(body, bytes.Repeat([]byte{7}, n)...)
 		}
 		wb := &watchedBody{data: body, err: e, blocked: make(chan struct{}), release: make(chan struct{})}
 		hc := &watchClient{bodyClient: bodyClient{status: 200, header: http.Header{"Content-Type": {ctFor(proto, "bidi", "raw")}}, body: wb}, pipeClosed: make(chan struct{})}
-		cl := connect.NewClient[[]byte, []byte](hc, "http://h/s/m", protoOpts(proto)...)
+		copts := protoOpts(proto)
+		if parts[0] == "discard" {
+			copts = append(copts, connect.WithReadMaxBytes(8))
+		}
+		cl := connect.NewClient[[]byte, []byte](hc, "http://h/s/m", copts...)
 		ctx, cancel := context.WithCancel(context.Background())
 		if a["ctx"] == "deadline" {
 			ctx, cancel = context.WithTimeout(context.Background(), 40*time.Millisecond)
@@ -446,7 +489,7 @@ func streamCancel(c *Ctx) {
 			errs = append(errs, "rst:"+r, "url-rst:"+r)
 		}
 		for _, e := range errs {
-			points := []string{"do", "prefix:0", "prefix:1", "prefix:4", "payload:0", "payload:3"}
+			points := []string{"do", "prefix:0", "prefix:1", "prefix:4", "payload:0", "payload:3", "discard:0", "discard:5"}
 			for _, p := range points {
 				if p == "do" && (e == "eof" || e == "ueof") {
 					continue
@@ -454,10 +497,22 @@ func streamCancel(c *Ctx) {
 				cflowOp(c, fmt.Sprintf("cflow proto=%s point=%s err=%s", proto, p, e))
 			}
 		}
+		// the context has ended by the time the transport fails, and the transport's error does
+		// not say so (F16)
+		for _, e := range []string{"cause", "url-cause", "opaque", "closedpipe", "ueof", "rst:CANCEL", "url-rst:NO_ERROR", "rst:REFUSED_STREAM"} {
+			for _, p := range []string{"do", "prefix:0", "prefix:3", "payload:0", "payload:2", "discard:0", "discard:7"} {
+				if p == "do" && e == "ueof" {
+					continue
+				}
+				for _, k := range []string{"canceled", "deadline"} {
+					cflowOp(c, fmt.Sprintf("cflow proto=%s point=%s err=%s done=%s", proto, p, e, k))
+				}
+			}
+		}
 	}
 	for _, proto := range []string{"connect", "grpc", "grpcweb"} {
 		for _, e := range []string{"opaque", "ueof", "canceled", "url-deadline", "rst:CANCEL", "rst:NO_ERROR", "closedpipe"} {
-			for _, p := range []string{"prefix:0", "prefix:2", "payload:0", "payload:4"} {
+			for _, p := range []string{"prefix:0", "prefix:2", "payload:0", "payload:4", "discard:0", "discard:6"} {
 				for _, k := range []string{"canceled", "deadline"} {
 					cwatchOp(c, fmt.Sprintf("cwatch proto=%s point=%s err=%s ctx=%s", proto, p, e, k))
 				}
@@ -543,6 +598,114 @@ func streamCancel(c *Ctx) {
 					saw := <-sawCancel
 					return fmt.Sprintf("handler saw cancellation=%v client=%s more=%v", saw, clientCode, rest), saw && clientCode == "canceled"
 				}})
+			}
+			// K19 (F18): … also when the handler has written nothing yet. Over HTTP/1.1 net/http
+			// watches the connection only once the request body has been read to its end: a
+			// handler whose request is one enveloped message has to read on to that end.
+			for _, kind := range []string{"unary", "server"} {
+				kind := kind
+				scs = append(scs, scenario{"cancel-handler-ctx", "client cancels while the handler runs and has sent nothing, " + kind + " " + tag, func() (string, bool) {
+					entered := make(chan struct{}, 1)
+					sawCancel := make(chan bool, 1)
+					wait := func(ctx context.Context) {
+						entered <- struct{}{}
+						select {
+						case <-ctx.Done():
+							sawCancel <- true
+						case <-time.After(3 * time.Second):
+							sawCancel <- false
+						}
+					}
+					var h *connect.Handler
+					if kind == "unary" {
+						h = connect.NewUnaryHandler("/s/m", func(ctx context.Context, r *connect.Request[[]byte]) (*connect.Response[[]byte], error) {
+							wait(ctx)
+							return nil, ctx.Err()
+						}, connect.WithCodec(rawCodec{"raw"}))
+					} else {
+						h = connect.NewServerStreamHandler("/s/m", func(ctx context.Context, r *connect.Request[[]byte], s *connect.ServerStream[[]byte]) error {
+							wait(ctx)
+							return ctx.Err()
+						}, connect.WithCodec(rawCodec{"raw"}))
+					}
+					srv := startServer(h, h2)
+					defer srv.Close()
+					cl := connect.NewClient[[]byte, []byte](srv.Client(), srv.URL+"/s/m", protoOpts(proto)...)
+					ctx, cancel := context.WithCancel(context.Background())
+					defer cancel()
+					go func() {
+						<-entered
+						time.Sleep(20 * time.Millisecond)
+						cancel()
+					}()
+					var err error
+					if kind == "unary" {
+						_, err = cl.CallUnary(ctx, connect.NewRequest(&[]byte{1, 2, 3}))
+					} else {
+						var s *connect.ServerStreamForClient[[]byte]
+						s, err = cl.CallServerStream(ctx, connect.NewRequest(&[]byte{1, 2, 3}))
+						if err == nil {
+							for s.Receive() {
+							}
+							err = s.Err()
+							_ = s.Close()
+						}
+					}
+					saw := <-sawCancel
+					return fmt.Sprintf("handler saw cancellation=%v client=%s", saw, codeName(err)), saw && codeName(err) == "canceled"
+				}})
+			}
+			// K20 (F19): the context ends while Receive is throwing away the payload of a message
+			// that is over the read limit (the peer has announced 256 bytes and sent 100 so far)
+			for _, kind := range []string{"unary", "server"} {
+				for _, ending := range []string{"cancel", "deadline"} {
+					kind, ending := kind, ending
+					scs = append(scs, scenario{"cancel-blocked-receive", "context ends (" + ending + ") while an over-limit response message is being discarded, " + kind + " " + tag, func() (string, bool) {
+						release := make(chan struct{})
+						raw := http.HandlerFunc(func(w http.ResponseWriter, r *http.Request) {
+							go func() { _, _ = io.Copy(io.Discard, r.Body) }()
+							w.Header().Set("Content-Type", ctFor(proto, kind, "raw"))
+							w.WriteHeader(200)
+							if !(proto == "connect" && kind == "unary") {
+								_, _ = w.Write(envPrefix(0, 256))
+							}
+							_, _ = w.Write(bytes.Repeat([]byte{7}, 100))
+							w.(http.Flusher).Flush()
+							// (the server does not end the response when the client goes away: over
+							// HTTP/1.1 + TLS a server that does can complete the chunked body between
+							// the client's close_notify and the closing of its socket, and net/http then
+							// hands the client a clean io.EOF - a truncated message, truthfully reported
+							// as such, and not what this scenario is about)
+							<-release
+						})
+						srv := startServer(raw, h2)
+						defer srv.Close()
+						defer close(release) // runs before srv.Close, which waits for the handler
+						cl := connect.NewClient[[]byte, []byte](srv.Client(), srv.URL+"/s/m", append(protoOpts(proto), connect.WithReadMaxBytes(32))...)
+						ctx, cancel := context.WithCancel(context.Background())
+						if ending == "deadline" {
+							ctx, cancel = context.WithTimeout(context.Background(), 200*time.Millisecond)
+						} else {
+							go func() { time.Sleep(200 * time.Millisecond); cancel() }()
+						}
+						defer cancel()
+						var err error
+						if kind == "unary" {
+							_, err = cl.CallUnary(ctx, connect.NewRequest(&[]byte{1}))
+						} else {
+							var st *connect.ServerStreamForClient[[]byte]
+							st, err = cl.CallServerStream(ctx, connect.NewRequest(&[]byte{1}))
+							if err == nil {
+								for st.Receive() {
+								}
+								err = st.Err()
+								_ = st.Close()
+							}
+						}
+						want := map[string]string{"cancel": "canceled", "deadline": "deadline_exceeded"}[ending]
+						return codeName(err), codeName(err) == want
+					}})
+				}
 			}
 			// K3: deadline passes while waiting for the response headers
 			for _, kind := range []string{"unary", "server"} {
@@ -1026,6 +1189,128 @@ func streamCancel(c *Ctx) {
 				_ = st.Close()
 				return got, got == "more=false err=canceled"
 			}})
+		}
+		// K17: the same contexts ending DURING a call, over HTTP/1.1 as well as HTTP/2 (net/http's
+		// HTTP/1.1 transport reports context.Cause(ctx) - the custom cause - as the error of the
+		// interrupted round trip or body read)
+		for _, h2 := range []bool{false, true} {
+			for _, which := range []string{"cancel-cause-unary", "timeout-cause-unary", "cancel-cause-stream"} {
+				h2, which := h2, which
+				scs = append(scs, scenario{"cancel-deadline-waiting", fmt.Sprintf("a context with a custom cause ends during the call: %s, %s h2=%v", which, proto, h2), func() (string, bool) {
+					mux := http.NewServeMux()
+					mux.Handle("/s/u", connect.NewUnaryHandler("/s/u", func(ctx context.Context, r *connect.Request[[]byte]) (*connect.Response[[]byte], error) {
+						select {
+						case <-ctx.Done():
+							return nil, ctx.Err()
+						case <-time.After(3 * time.Second):
+							return connect.NewResponse(&[]byte{1}), nil
+						}
+					}, connect.WithCodec(rawCodec{"raw"})))
+					mux.Handle("/s/s", connect.NewServerStreamHandler("/s/s", func(ctx context.Context, r *connect.Request[[]byte], s *connect.ServerStream[[]byte]) error {
+						_ = s.Send(&[]byte{1})
+						select {
+						case <-ctx.Done():
+							return ctx.Err()
+						case <-time.After(3 * time.Second):
+							return nil
+						}
+					}, connect.WithCodec(rawCodec{"raw"})))
+					srv := startServer(mux, h2)
+					defer srv.Close()
+					cause := errors.New("shutting down for maintenance")
+					opts := append(protoOpts(proto), connect.WithCodec(rawCodec{"raw"}))
+					switch which {
+					case "cancel-cause-unary":
+						cl := connect.NewClient[[]byte, []byte](srv.Client(), srv.URL+"/s/u", opts...)
+						ctx, cancel := context.WithCancelCause(context.Background())
+						go func() { time.Sleep(150 * time.Millisecond); cancel(cause) }()
+						_, err := cl.CallUnary(ctx, connect.NewRequest(&[]byte{1}))
+						return codeName(err), codeName(err) == "canceled"
+					case "timeout-cause-unary":
+						cl := connect.NewClient[[]byte, []byte](srv.Client(), srv.URL+"/s/u", opts...)
+						ctx, cancel := context.WithTimeoutCause(context.Background(), 150*time.Millisecond, cause)
+						defer cancel()
+						_, err := cl.CallUnary(ctx, connect.NewRequest(&[]byte{1}))
+						return codeName(err), codeName(err) == "deadline_exceeded"
+					}
+					cl := connect.NewClient[[]byte, []byte](srv.Client(), srv.URL+"/s/s", opts...)
+					ctx, cancel := context.WithCancelCause(context.Background())
+					defer cancel(nil)
+					st, err := cl.CallServerStream(ctx, connect.NewRequest(&[]byte{1}))
+					if err != nil {
+						return "call: " + codeName(err), false
+					}
+					if !st.Receive() {
+						return "first Receive failed: " + codeName(st.Err()), false
+					}
+					go func() { time.Sleep(150 * time.Millisecond); cancel(cause) }()
+					more := st.Receive()
+					got := fmt.Sprintf("more=%v err=%s", more, codeName(st.Err()))
+					_ = st.Close()
+					return got, got == "more=false err=canceled"
+				}})
+			}
+		}
+		// K18: a unary (or client-streaming) call whose response MESSAGE has arrived but whose
+		// end (trailer frame / HTTP trailers) has not: the context ends, the pending body read
+		// fails - the call fails with the context's code (it has not succeeded, and "unknown" is
+		// not what happened)
+		if proto != "connect" {
+			for _, kind := range []string{"unary", "client"} {
+				for _, ending := range []string{"cancel", "deadline"} {
+					for _, bodyErr := range []string{"ctx", "transport"} {
+						kind, ending, bodyErr := kind, ending, bodyErr
+						scs = append(scs, scenario{"cancel-blocked-receive", fmt.Sprintf("%s call: the response message is in, the end of the response is not; %s; the pending body read then fails (%s error), %s", kind, ending, bodyErr, proto), func() (string, bool) {
+							var ctx context.Context
+							var cancel context.CancelFunc
+							want := "canceled"
+							if ending == "cancel" {
+								ctx, cancel = context.WithCancel(context.Background())
+							} else {
+								ctx, cancel = context.WithTimeout(context.Background(), 150*time.Millisecond)
+								want = "deadline_exceeded"
+							}
+							defer cancel()
+							wb := &watchedBody{data: frame(0, []byte{1, 2}), blocked: make(chan struct{}), release: make(chan struct{})}
+							wb.err = errTransport
+							hc := &watchClient{bodyClient: bodyClient{status: 200, header: http.Header{"Content-Type": {ctFor(proto, kind, "raw")}}, body: wb}, pipeClosed: make(chan struct{})}
+							cl := connect.NewClient[[]byte, []byte](hc, "http://h/s/m", append(protoOpts(proto), connect.WithCodec(rawCodec{"raw"}))...)
+							done := make(chan error, 1)
+							go func() {
+								if kind == "unary" {
+									_, err := cl.CallUnary(ctx, connect.NewRequest(&[]byte{1}))
+									done <- err
+									return
+								}
+								st := cl.CallClientStream(ctx)
+								_ = st.Send(&[]byte{1})
+								_, err := st.CloseAndReceive()
+								done <- err
+							}()
+							select {
+							case <-wb.blocked:
+							case <-time.After(3 * time.Second):
+								return "the call never got to read the end of the response", false
+							}
+							if ending == "cancel" {
+								cancel()
+							}
+							<-ctx.Done()
+							if bodyErr == "ctx" {
+								wb.err = ctx.Err()
+							}
+							time.Sleep(20 * time.Millisecond)
+							close(wb.release)
+							select {
+							case err := <-done:
+								return codeName(err), codeName(err) == want
+							case <-time.After(3 * time.Second):
+								return "the call did not return", false
+							}
+						}})
+					}
+				}
+			}
 		}
 		// K15: a context that was *cancelled* before its (short) deadline and is used after that
 		// instant is a cancelled context: every operation reports canceled - Send and the
